@@ -98,7 +98,7 @@ func runWithdraw(ctx *action.Context, signedTx action.RawTx) (bool, action.Respo
 	//    a. if the proposal outcome is cancelled or insufficient funds
 	//    or
 	//    b. the funding goal is not reached and the funding height is reached
-	proposal, _, err := ctx.ProposalMasterStore.Proposal.QueryAllStores(withdrawProposal.ProposalID)
+	proposal, state, err := ctx.ProposalMasterStore.Proposal.QueryAllStores(withdrawProposal.ProposalID)
 	if err != nil {
 		ctx.Logger.Error("Proposal does not exist :", withdrawProposal.ProposalID)
 		result := action.Response{
@@ -108,6 +108,11 @@ func runWithdraw(ctx *action.Context, signedTx action.RawTx) (bool, action.Respo
 		return false, result
 	}
 
+	// funds leave a proposal only while it is active or failed (passed and finalized proposals are paid out by
+	// the distribution)
+	if state != governance.ProposalStateActive && state != governance.ProposalStateFailed {
+		return helpers.LogAndReturnFalse(ctx.Logger, governance.ErrProposalWithdrawNotEligible, withdrawProposal.Tags(), errors.New("proposal is passed or finalized"))
+	}
 	// funds are withdrawn in positive amounts only
 	if withdrawProposal.WithdrawValue.Value.BigInt().Sign() <= 0 {
 		return helpers.LogAndReturnFalse(ctx.Logger, action.ErrInvalidAmount, withdrawProposal.Tags(), errors.New("withdraw value must be positive"))
